@@ -131,6 +131,25 @@ CHECKS = {
         "DESIGN.md 6 C10",
         TRUST,
     ),
+    "C08": (
+        "TLC exhaustive check of Bodies.tla over exact rationals (rational rotations from integer quaternions; force balance, "
+        "moment balance about two points, power identity for rigid bodies; nodal force/couple transfer for element-centric, edge "
+        "and surface rod grids with taper and caps; unit forces on every marker/component) + every case loaded into real "
+        "PyElastica bodies and real forcing grids (transfer compared with the rational result; balance laws evaluated on the "
+        "code's outputs for random forcing of the full natural layouts; coupled fluid+body net force)",
+        "Model checking of the balance laws on a basis of the (linear) forcing space + conformance of each grid class.",
+        "DESIGN.md 6 C08",
+        TRUST,
+    ),
+    "C09": (
+        "TLC exhaustive check of Bodies.tla (marker positions/velocities over exact rationals, rigid-section kinematics, surface "
+        "radius law) + cases loaded into real bodies/grids (positions and velocities compared with the model; V + Omega x r on "
+        "every marker of the natural layouts; second-order motion consistency of body-fixed grids; random tapered rods with dense "
+        "surface grids and caps)",
+        "Model checking of the kinematic relations + conformance of the grid classes' position/velocity maps.",
+        "DESIGN.md 6 C09",
+        TRUST,
+    ),
 }
 
 NOT_YET = "check not built yet in this round (see DESIGN.md 11 for the build order)"
